@@ -831,8 +831,9 @@ def find(req):
 
 
 def _recorded(cat):
-    """Categories that only restate a recorded finding (mbox results carry no attachments)."""
-    return cat in ("mbox:attachments", "agree:attachments")
+    """Categories that are not evidence against the glue: a recorded finding (mbox results carry no attachments), decoding
+    done by the library (`lib:`), artefacts of the stdlib generator (`~`)."""
+    return cat in ("mbox:attachments", "agree:attachments") or ":lib:" in cat or cat.startswith(("lib:", "~"))
 
 
 def rerun(stored):
